@@ -77,6 +77,9 @@ def compound_items() -> list[Any]:
     out.append(lambda: Repeat1(acted("R", leaf(A), leaf(B))))
     out.append(lambda: Opt(acted("S", leaf(B))))
     out.append(lambda: seq(leaf(A), Opt(leaf(B)), leaf("NAME")))
+    # a gather whose element is itself a repetition (the runtime helper sees a failing element as [] there, not as None)
+    for sep, el in ((A, B), (B, A), (A, "NAME"), (B, "x")):
+        out.append(lambda sep=sep, el=el: Gather(leaf(sep), Group(Rhs([Alt([NamedItem(None, Repeat1(leaf(el)))])]))))
     # a forced token as the only content of a group (the inlining shortcut must not evaluate its operand eagerly)
     out.append(lambda: Group(Rhs([Alt([NamedItem(None, Forced(StringLeaf(A)))])])))
     out.append(lambda: Group(Rhs([Alt([NamedItem(None, Forced(StringLeaf(B)))])])))
